@@ -95,6 +95,11 @@ def autosort(identifiers):
                 sorted_identifiers.remove(step)
                 sorted_identifiers.insert(cix, step)
 
+    if sorted_identifiers != identifiers:
+        # A step that was moved forward may now precede its own
+        # precursors. Sort again until the order is stable.
+        return autosort(sorted_identifiers)
+
     # Perform a sanity check
     check_order(sorted_identifiers)
 
